@@ -49,7 +49,7 @@ impl Check for C09 {
     }
     fn n_runs(&self, thorough: bool) -> u64 {
         if thorough {
-            300_000
+            240_000
         } else {
             8_000
         }
